@@ -10,6 +10,8 @@ CONSTANTS
   AppLeaf <- MCAppLeaf
   TaskGroups = {"tg"}
   GangApps = {"app1"}
+  Guar <- MCGuar
+  PreemptOn = FALSE
   AsCoded = FALSE
   MaxHist = 28
 INVARIANT EmitFull
